@@ -87,7 +87,7 @@ PROPS.update({
 _GRAPH_TRUST = ['assumed contract of the built-in list (append/remove/in/index/clear; abstract list theory T1, validated against CPython lists in the thorough tier)',
                 'graph lemma axioms D1-D5, G1 (transcriptions of lemmas/Graph.lean, proved in Lean 4 + Mathlib; transcription trusted, validated on all relations over <= 4 nodes)',
                 'history induction (meta-argument): every public mutator preserves Inv on both exits, constructors establish it; closed by the encapsulation scan']
-_GRAPH_B = ['WBS.remove_all, _TaskList.remove_all, WBS.__init__, Task.__init__ with dependency arguments, operators with a single task or a non-list iterable as right operand - bounded stand-in only (random histories of public calls)',
+_GRAPH_B = ['WBS.remove_all, _TaskList.remove_all, WBS.__init__ with initial tasks, Task.__init__ with dependency arguments, operators with a single task or a non-list iterable as right operand - bounded stand-in only (random histories of public calls)',
             'Task.children.setter: a list that names a task twice, and the claim that its attach loop cannot reject once the checks have passed (C15; needs the meaning of the opaque id-clash predicate) - bounded stand-in only',
             'assumed by contract: _to_list (type dispatch of the setters\' argument), the correspondence between the opaque id-clash predicate used in the mutator units and the proved post-condition of _has_id_intersection (same sentence, two formulations), '
             'the read-only list view _ImmutableTaskList (delegates in / iteration / len to the wrapped list). The closure helpers are no longer assumed: Task.all_children / __get_all_children / its generator, '
@@ -102,7 +102,7 @@ _GRAPH_EXPL = ('contract-based deductive verification of the core mutators: Task
                'and WBS.remove, and the operators t // others, t << others, t >> others (right operand a list of tasks) are proved against these contracts. The list facades are proved against those contracts (callers see only the callee contract): _ChildrenList.append / insert / move / sort / reorder and _PredecessorsList / _SuccessorsList append / remove, '
                'as are the ownership walks Task._attach / _detach, the list-object setter __set_children and the closure helpers the mutators call (recursive generators executed with a ghost output list; '
                'all_children is proved to return exactly the depth-first listing dfs(t) = concat over the children c in list order of [c] + dfs(c), every strict descendant once - which is WBS.tasks (C05); '
-               'termination by measures whose existence in finite acyclic graphs is Lean lemma K1). Task.__init__ (without dependency arguments) is proved to establish Inv for the new object - the unallocated part of the heap is modelled as blank objects nobody refers to - and to hand parent / children to the setters. Level `other`: remove_all and WBS.__init__ are covered by the bounded native '
+               'termination by measures whose existence in finite acyclic graphs is Lean lemma K1). Task.__init__ (without dependency arguments) is proved to establish Inv for the new object - the unallocated part of the heap is modelled as blank objects nobody refers to - and to hand parent / children to the setters. WBS.__init__ (without initial tasks) is proved to create a hidden root with the reserved id that the new WBS owns (the constructor call on the reserved id is used by assumed contract). Level `other`: remove_all is covered by the bounded native '
                'stand-in (random histories over task objects sharing ids, two WBSs, stale list facades, constructors). ')
 PROPS.update({
     'C01': P('other', _GRAPH_EXPL, _GRAPH_B, _GRAPH_TRUST, design_ref='8/C01'),
